@@ -115,7 +115,7 @@ Qed.
 Ltac serve_tail c ct En El :=
   unfold serve_file; rewrite ?En, ?El; cbv beta iota;
   destruct (s_max c <? N.of_nat (length ct))%N; [reflexivity|];
-  destruct (decode ct); [|reflexivity];
+  destruct (read_text ct); [|reflexivity];
   rewrite mime_tie; cbn [norm_resp g_status g_meta g_body resp_of_sout]; rewrite meta_label_mime; reflexivity.
 
 (* the generated handle is the model, without any hypothesis *)
